@@ -253,6 +253,25 @@ def ini_rules(ck, fn):
             ck.ob("C19-O1", sitestr(fn, reads[key]["node"]), reads[key]["default"] == want, "'%s' defaults to %s" % (key, bool(want)) if reads[key]["default"] == want else
                   "'%s' defaults to %s, the documented example/behaviour is %s" % (key, reads[key]["default"], bool(want)), key="ini|default|%s" % key)
 
+    # text settings reach their handler verbatim: between settings.value(key) and the variable the handler is created from there is the conversion to
+    # QString and nothing else, and the variable is not edited afterwards ("sanitising" a rule list or an expression makes it another one)
+    EDITS = ("trimmed", "simplified", "toLower", "toUpper", "toCaseFolded", "left", "right", "mid", "chopped", "section", "normalized", "remove", "replace", "arg", "toHtmlEscaped", "repeated")
+    MUTS = ("replace", "remove", "append", "prepend", "insert", "chop", "truncate", "resize", "clear", "fill", "operator+=", "operator=", "push_back", "squeeze_")
+    for key, r in sorted(reads.items()):
+        if r["conv"] != "toString" or r["var"] is None:
+            continue
+        chain = []
+        for a in fn.ancestors(r["node"]):
+            if a.get("k") == "decl":
+                break
+            if a.get("k") == "call" and a.get("ck") == "member" and strip_tmpl(a.get("callee") or "").split("::")[-1] in EDITS:
+                chain.append(strip_tmpl(a.get("callee") or "").split("::")[-1])
+        muts = sorted({strip_tmpl(c_.get("callee") or "").split("::")[-1] for c_ in fn.calls() if c_.get("ck") in ("member", "operator") and
+                       is_ref_to((c_.get("obj") if c_.get("ck") == "member" else (c_.get("args") or [None])[0]), r["var"]) and strip_tmpl(c_.get("callee") or "").split("::")[-1] in MUTS})
+        bad_ = chain + muts
+        ck.ob("C19-O2", sitestr(fn, r["node"]), not bad_, "'%s' reaches its handler as configured" % key if not bad_ else
+              "the value of '%s' is edited (%s) before the handler is built from it: the handler works with another %s than the one configured - leading / trailing blanks, a ':' or an upper-case letter "
+              "can be part of a regular expression, a category name or a pattern" % (key, ", ".join(bad_), "text"), key="ini|text|%s" % key)
     apps = pipeline_appends(fn)
     by_cls = {}
     for cls, c, n in apps:
@@ -758,3 +777,27 @@ def handler_protocol(ck):
             continue
         for n in f.find(lambda n: n.get("k") == "binop" and n.get("op") == "=" and is_ref_to(n.get("lhs"), gp)):
             ck.notes.append("g_previousMessageHandler also written in %s" % f.sig)
+
+
+def share_ini_obligation(ck, rid, key_suffix, rule_text):
+    """run the INI front-end rules on a scratch recorder and copy the obligations whose key ends with key_suffix into check `ck` under rule `rid`: the
+    property of a handler ("the filter decides by the configured expression") also has to hold when the handler is built by configure(settings)"""
+    import copy
+    ck.rule(rid, rule_text)
+    F = ck.facts
+    ini = F.fn("QtLogger::configure", sig_contains="const QSettings &", optional=True)
+    if ini is None:
+        ck.ob(rid, "(configure)", None, "configure(Pipeline *, const QSettings &, ...) not found", key="frontend|%s" % key_suffix)
+        return
+    sub = copy.copy(ck)
+    sub.obligations, sub.rules, sub.functions_analysed, sub.notes = [], {}, set(), []
+    try:
+        ini_rules(sub, ini)
+    except AnalysisBroken:
+        pass
+    got = [o for o in sub.obligations if (o.get("key") or "").endswith(key_suffix)]
+    ck.touch(ini)
+    if not got:
+        ck.ob(rid, sitestr(ini), None, "how '%s' travels from the settings to its handler could not be followed" % key_suffix.split("|")[-1], key="frontend|%s" % key_suffix)
+    for o in got:
+        ck.ob(rid, o["site"], {"discharged": True, "violated": False}.get(o["verdict"]), o["what"], key="frontend|%s" % key_suffix)
